@@ -33,7 +33,7 @@ OBLIGATIONS = ["NiftyVerif.C30." + t for t in (
     "interp_monotone", "interp_strictMono", "interp_nodes", "interp_between", "interp_range",
     "invgamma_monotone_and_step_error", "inverse_roundtrip_interp", "inverse_roundtrip_invgamma",
     "interpolator_grid_covers", "invgamma_exact_at_nodes", "strictMono_tabulated_cl", "quantile_tabulated_cl",
-    "invgamma_cl_jacobian", "pushforward_cdf")]
+    "invgamma_cl_jacobian", "pushforward_cdf", "invgamma_prior_spec", "interpolator_grid_num_covers")]
 RULE = ("case = (family, parameters, implementations, sorted standard-normal points x = Phi^-1(p) with p in [1e-12, 1-1e-12], "
         "log-uniform in min(p,1-p), both tails); parameters log-uniform over the documented ranges; non-trivial = points in "
         "both tails and non-default parameters; distinct by canonical JSON of the case. Separate streams: exact dyadic tables "
